@@ -32,6 +32,14 @@ def draw_hier(draw, max_ids=5, max_parts=4, max_dim=3, p_red=0.2, p_cov=0.3, kin
     _, _, hd = ref.hier_layout(pop, n_ids)
     vec = [gen.r6(float(v)) for v in x[:, hd].flatten()] + list(theta)
     late = False
+    if pop['kind'] == 'red' and popgen.has(pop, 'hetero') and not _cov_hetero(pop) and n_ids >= 2:
+        # a reduced model built for its default single individual: possible when the fixed parameters are no
+        # per-individual (heterogeneous) ones, i.e. exist under the same name for every number of individuals
+        dims = ['d%d' % k for k in range(n_dim)]
+        full = ref.pop_names(pop['base'], n_ids, dims)
+        small = ref.pop_names(pop['base'], 1, dims)
+        if all(full[j] in small for j in pop['fixed']):
+            late = gen.chance(draw, 0.6)
     if popgen.has(pop, 'hetero') and not popgen.has(pop, 'red') and not _cov_hetero(pop):
         # heterogeneous models constructed with their default n_ids=1; the hierarchical
         # likelihood is then responsible for setting the number of individuals
@@ -61,7 +69,15 @@ def build_hier(spec):
     lls = []
     for i, ll in enumerate(spec['lls']):
         lls.append(llbuild.build_ll(ll, ident=None if spec['ids'] is None else spec['ids'][i]))
-    pm = ref.build_pop(spec['pop'], ll_param_names(spec), None if spec.get('late') else n_ids)
+    if spec.get('late') and spec['pop']['kind'] == 'red':
+        # the user fixes (by name) on a model still configured for one individual
+        pop = spec['pop']
+        names_full = ref.build_pop(pop['base'], ll_param_names(spec), n_ids).get_parameter_names()
+        base = ref.build_pop(pop['base'], ll_param_names(spec), None)
+        pm = chi.ReducedPopulationModel(base)
+        pm.fix_parameters({names_full[j]: float(v) for j, v in zip(pop['fixed'], pop['values'])})
+    else:
+        pm = ref.build_pop(spec['pop'], ll_param_names(spec), None if spec.get('late') else n_ids)
     cov = None if spec['cov'] is None else np.array(spec['cov'], dtype=float)
     return chi.HierarchicalLogLikelihood(lls, pm, covariates=cov)
 
@@ -135,6 +151,8 @@ def classify(spec):
         labs.append('n_ids=1')
     if spec.get('late'):
         labs.append('late_n_ids')
+        if pop['kind'] == 'red':
+            labs.append('late_n_ids:reduced')
     if popgen.has(pop, 'trunc') and 'vec' in spec:
         from vf.props.c06 import leaf_table
         nb = ref.hier_layout(pop, spec['n_ids'])[0]
